@@ -194,7 +194,7 @@ def check(run, driver):
             else:
                 s, t = a, b
             want_rows.append([s, t, lag, d.get("val", d.get("cmi")), d.get("p_value"), lt] + ([bool(d["significant"])] if "significant" in d else [None]))
-        has_sig = any("significant" in d for a, b, d in edges)
+        has_sig = any(w[6] is not None for w in want_rows)      # (over the rows actually listed: a de-duplicated mirror edge contributes no column)
         want_cols = ["Source", "Sink", "Lag", "Val", "P_Value", "Link_Type"] + (["Significant"] if (has_sig or not want_rows) else [])
         if list(df.columns) != want_cols or len(df) != len(want_rows):
             run.prop_fail("PCMCI export: wrong header or a symmetric link not listed exactly once", case, {"clause": "pcmci_rows"}, {"cols": list(df.columns), "rows": len(df), "want_rows": len(want_rows)})
